@@ -95,6 +95,17 @@ Theorem pnorm_range : forall fl a b, (0 <= prefix_distance fl true a b <= 1)%Q.
 Proof. exact pnorm_range_l. Qed.
 Print Assumptions pnorm_range.
 
+(** ** distances: [None] (the Err) exactly on a length mismatch, else pointwise *)
+Theorem distances_err : forall fl nm la lb, length la <> length lb -> distances fl nm la lb = None.
+Proof. exact distances_err_l. Qed.
+Print Assumptions distances_err.
+
+Theorem distances_ok : forall fl nm la lb, length la = length lb ->
+  exists l, distances fl nm la lb = Some l /\ length l = length la
+    /\ forall k, k < length la -> nth k l 0%Q = distance fl nm (nth k la []) (nth k lb []).
+Proof. exact distances_ok_l. Qed.
+Print Assumptions distances_ok.
+
 (** ** the executable statement holds of the model's own output (outside the KF2 class),
     and an output that passes it carries a minimal alignment *)
 Theorem check_run : forall v, no_kf2 v -> check_C12 v (run_C12 v) = true.
@@ -129,3 +140,8 @@ Proof. vm_compute. reflexivity. Qed.
 Example no_kf2_example :
   no_kf2 (L [I 0; I 1; I 1; I 1; L [L [I 97]; L [I 32]]; L [L [I 32]; L [I 97]]; I 1; I 1])%Z.
 Proof. intros _ _. vm_compute. repeat constructor. Qed.
+(** an input on which the executable statement holds (premise of [check_sound]) *)
+Example check_example :
+  let v := (L [I 0; I 1; I 1; I 1; L [L [I 97]; L [I 32]; L [I 98]]; L [L [I 98]; L [I 97]; L [I 32]; L [I 32]]; I 2; I 2])%Z in
+  check_C12 v (run_C12 v) = true.
+Proof. vm_compute. reflexivity. Qed.
